@@ -40,6 +40,7 @@ class Profile:
         self.p_event_param_guard = 0.05
         self.p_active_guard = 0.12     # guards that also read the configuration through active()
         self.active_in_actions = True  # actions may read the configuration through active()
+        self.use_objects = False        # context holds an object, a list and a function defined in the preamble (b, l, ok)
         self.p_varied_names = 0.12     # per chart: state names of varied shape (unicode, long, mixed case, digits) instead of nDD
         self.p_large = 0.05            # per chart: a large statechart (up to 40 states, deeper nesting)
         self.p_cross_region = 0.0      # probability of KEEPING a transition that crosses between sibling regions (outside section 2)
@@ -77,6 +78,11 @@ class Gen:
         names = NAMES[:max(n, 1) + 20]
         if self.p.shuffle_names:
             self.rng.shuffle(names)
+        if self.rng.random() < 0.12:
+            # names that are single characters of the other names (a string is also an iterable of its characters)
+            extra = self.rng.sample(['n', '0', '1', '2'], 3)
+            for i, e in zip(self.rng.sample(range(min(len(names), max(n, 3))), 3), extra):
+                names[i] = e
         self.pool = NAMES[:12]
         return names
 
@@ -112,6 +118,8 @@ class Gen:
                     parts.append("notify('m%d', w=y)" % self.rng.randint(0, 1))
                 else:
                     parts.append("send('%s')" % ev)
+            elif r < 0.75 and self.p.use_objects and self.rng.random() < 0.3:
+                parts.append(self.rng.choice(['b.v = b.v + 1', 'l.append(x)', 'b.v = x', 'ok()', 'l[0] = l[0] + 1']))
             elif r < 0.75:
                 parts.append(self.rng.choice(['x = x + 1', 'y = y + x', 'x = x - 1', 'y = x', 'x = 0', 'y = y + 1'] +
                                              (['k = k + 1', 'k = k + x'] if self.p.use_k else [])))
@@ -132,6 +140,11 @@ class Gen:
         self.k_cond += 1
         base = '(c >> %d) & 1 == 0' % k
         r = self.rng.random()
+        if self.p.use_objects and self.rng.random() < 0.2:
+            if kind != 'pre' and with_old and self.rng.random() < 0.6:
+                return self.rng.choice(['%s and (b.v >= __old__.b.v or b.v < __old__.b.v) and len(l) >= len(__old__.l) and %d == %d',
+                                        '%s and (__old__.l[0] <= l[0] or __old__.l[0] > l[0]) and %d == %d']) % (base, u, u)
+            return 'ok()'
         if r < 0.5:
             return '%s and %d == %d' % (base, u, u)
         if r < 0.65 and kind != 'pre' and with_old:
@@ -163,7 +176,10 @@ class Gen:
         max_depth = 7 if large else 4
         names = self.fresh_names(n_target + 4)
         it = iter(names)
-        sc = Statechart('gen', preamble='x = 0\ny = 0\ng = 4095\nc = 0')
+        pre = 'x = 0\ny = 0\ng = 4095\nc = 0'
+        if p.use_objects:
+            pre += '\nclass Box:\n    pass\nb = Box()\nb.v = 0\nl = [0]\ndef ok():\n    return True'
+        sc = Statechart('gen', preamble=pre)
         states = {}     # name -> (kind, parent)
         children = {}
 
@@ -487,3 +503,133 @@ def parallel_profile(**kw):
     d.update({k: v for k, v in kw.items()})
     d.update(kw)
     return Profile(**d)
+
+
+# ------------------------------------------------------------------------------------------------------------------
+# bounded-exhaustive family (DESIGN.md section 4.2): every tree shape with up to `max_states` states and every assignment of
+# kinds allowed by section 2, each with a random palette of transitions.  Supports the search, is not the proof.
+# ------------------------------------------------------------------------------------------------------------------
+def _shapes(n):
+    """all rooted ordered trees with n nodes, as nested tuples of children"""
+    if n == 1:
+        return [()]
+    out = []
+
+    def forests(k):
+        # all ordered forests with k nodes in total
+        if k == 0:
+            return [()]
+        res = []
+        for first in range(1, k + 1):
+            for t in _shapes(first):
+                for rest in forests(k - first):
+                    res.append((t,) + rest)
+        return res
+    for f in forests(n - 1):
+        out.append(f)
+    return out
+
+
+def _kinded(shape, is_root=True, parent_kind=None):
+    """all assignments of kinds to a shape that satisfy section 2; yields nested (kind, [children])"""
+    kids = list(shape)
+    if not kids:
+        opts = ['basic']
+        if not is_root and parent_kind == 'compound':
+            opts += ['final', 'shallow', 'deep']
+        for k in opts:
+            yield (k, [])
+        return
+    for k in ('compound', 'orthogonal'):
+        def rec(i):
+            if i == len(kids):
+                yield []
+                return
+            for c in _kinded(kids[i], False, k):
+                for rest in rec(i + 1):
+                    yield [c] + rest
+        for cs in rec(0):
+            kinds = [c[0] for c in cs]
+            if k == 'orthogonal' and any(x in ('final', 'shallow', 'deep') for x in kinds):
+                continue
+            if k == 'compound' and all(x in ('final', 'shallow', 'deep') for x in kinds):
+                continue
+            if k == 'compound' and sum(1 for x in kinds if x in ('shallow', 'deep')) > 1 and len(kids) > 3:
+                continue
+            yield (k, cs)
+
+
+def small_charts(rng, max_states=4, per_shape=2, limit=None):
+    """-> list of Statecharts: every kinded shape with 2..max_states states, `per_shape` random transition palettes each"""
+    trees = []
+    for n in range(2, max_states + 1):
+        for sh in _shapes(n):
+            trees.extend(_kinded(sh))
+    if limit is not None and len(trees) > limit:
+        trees = rng.sample(trees, limit)
+    out = []
+    for tree in trees:
+        for _ in range(per_shape):
+            names = list(NAMES[:12])
+            rng.shuffle(names)
+            it = iter(names)
+            sc = Statechart('gen', preamble='x = 0\ny = 0\ng = 4095\nc = 0')
+            g = Gen(rng, Profile(p_contract=0.1))
+            nodes = []      # (name, kind, parent)
+
+            def build(node, parent):
+                kind, kids = node
+                nm = next(it)
+                code = lambda: g.action() if rng.random() < 0.4 else None
+                st = {'basic': BasicState, 'final': FinalState, 'orthogonal': OrthogonalState}.get(kind)
+                if kind == 'compound':
+                    obj = CompoundState(nm, on_entry=code(), on_exit=code())
+                elif kind in ('shallow', 'deep'):
+                    obj = (ShallowHistoryState if kind == 'shallow' else DeepHistoryState)(nm)
+                else:
+                    obj = st(nm, on_entry=code(), on_exit=code())
+                sc.add_state(obj, parent)
+                nodes.append((nm, kind, parent))
+                names_k = [build(k_, nm) for k_ in kids]
+                if kind == 'compound':
+                    real = [n_ for n_, k_ in names_k if k_ not in ('shallow', 'deep')]
+                    hist = [n_ for n_, k_ in names_k if k_ in ('shallow', 'deep')]
+                    obj.initial = rng.choice(real + hist) if rng.random() < 0.2 and hist else rng.choice(real)
+                    for h in hist:
+                        sc.state_for(h).memory = rng.choice(real)
+                return nm, kind
+            build(tree, None)
+            parent = {n_: p_ for n_, _, p_ in nodes}
+            kind = {n_: k_ for n_, k_, _ in nodes}
+
+            def anc(n_):
+                res = []
+                while parent[n_] is not None:
+                    n_ = parent[n_]
+                    res.append(n_)
+                return res
+
+            def ok(src, tgt):
+                if tgt is None:
+                    return True
+                sa, ta = [src] + anc(src), [tgt] + anc(tgt)
+                for o in sa:
+                    if kind[o] == 'orthogonal' and o in ta:
+                        i, j = sa.index(o), ta.index(o)
+                        if i > 0 and j > 0 and sa[i - 1] != ta[j - 1]:
+                            return False
+                if kind[tgt] in ('shallow', 'deep') and parent[tgt] in sa:
+                    return False
+                return True
+            owners = [n_ for n_, k_, _ in nodes if k_ in ('basic', 'compound', 'orthogonal')]
+            for _k in range(rng.randint(2, 6)):
+                src = rng.choice(owners)
+                tgt = rng.choice([None] + [n_ for n_, _, _ in nodes])
+                if not ok(src, tgt):
+                    continue
+                ev = rng.choice([None, 'e0', 'e0', 'e1'])
+                guard = '(g >> %d) & 1 == 1' % rng.randint(0, 5) if (ev is None or rng.random() < 0.4) else None
+                sc.add_transition(Transition(src, tgt, event=ev, guard=guard, action=g.action() if rng.random() < 0.4 else None,
+                                             priority=rng.choice([None, None, 1, -1])))
+            out.append(sc)
+    return out
